@@ -429,6 +429,30 @@ pub fn accepts_reordered(target: &Target, wire: &V) -> bool {
     matches!(target.observe_bytes(&target.bytes(wire)), Dec::Ok(_))
 }
 
+/// The same question asked with the plainest message there is: the required members only, every
+/// list emptied, in reverse order. The probe must not itself walk into the behaviour a reordered
+/// space is there to examine (a long list, a value at its limit), or a defect would switch its
+/// own detector off.
+pub fn accepts_reordered_plain(target: &Target) -> bool {
+    fn plain(v: &V) -> V {
+        match v {
+            V::M(m) => V::M(m.iter().rev().map(|(k, x)| (k.clone(), plain(x))).collect()),
+            V::A(_) => V::A(vec![]),
+            other => other.clone(),
+        }
+    }
+    let plan = Plan::new(&target.schema(), Side::Request);
+    let minimal = plan.build(0, &[]);
+    match &minimal {
+        V::M(m) if m.len() >= 2 => accepts_reordered(target, &plain(&minimal)),
+        // fewer than two required members: add the first optional one so that there is an order to reverse
+        _ => {
+            let with_one = plan.build(plan.normalize_up(1), &[]);
+            accepts_reordered(target, &plain(&with_one))
+        }
+    }
+}
+
 /// entries of a parameter list with `type` sent before `alg`
 pub fn accepts_reordered_entries() -> bool {
     static ONCE: std::sync::OnceLock<bool> = std::sync::OnceLock::new();
@@ -444,7 +468,7 @@ pub fn reversed_full_seeds() -> Vec<SeedMsg> {
         .into_iter()
         .filter(|s| s.label.ends_with(":full"))
         .map(|s| SeedMsg { label: format!("{} (members reversed)", s.label), target: s.target, wire: reverse_maps(&s.wire) })
-        .filter(|s| accepts_reordered(&s.target, &s.wire))
+        .filter(|s| accepts_reordered_plain(&s.target))
         .collect()
 }
 
